@@ -163,6 +163,9 @@ pub struct GenCtx<'a> {
     pub families: Vec<Vec<u32>>,
     /// families without big-result calls (used by the contention mode)
     pub small_families: Vec<Vec<u32>>,
+    /// indices into `families`, grouped by family type (a, b, c, ...): a family is drawn by
+    /// type first, so that rare types (big results, spellings) weigh as much as common ones
+    pub families_by_type: Vec<Vec<usize>>,
 }
 
 impl<'a> GenCtx<'a> {
@@ -210,9 +213,18 @@ impl<'a> GenCtx<'a> {
                 quick_by_kind[k].push(i as u32);
             }
         }
-        let families: Vec<Vec<u32>> = fam_map.into_values().filter(|v| v.len() >= 2).collect();
+        let mut families: Vec<Vec<u32>> = Vec::new();
+        let mut by_type: std::collections::BTreeMap<u8, Vec<usize>> = std::collections::BTreeMap::new();
+        for (fid, members) in fam_map.into_iter() {
+            if members.len() >= 2 {
+                let t = pool.family_types.get(fid as usize).copied().unwrap_or(0);
+                by_type.entry(t).or_default().push(families.len());
+                families.push(members);
+            }
+        }
+        let families_by_type: Vec<Vec<usize>> = by_type.into_values().collect();
         let small_families: Vec<Vec<u32>> = families.iter().filter(|f| f.iter().all(|i| !pool.ops[*i as usize].op.is_big())).cloned().collect();
-        GenCtx { pool, refs, usable, by_group, poison_by_group, cheap, kinds, by_kind, quick_by_kind, tl_slot_ops, families, small_families }
+        GenCtx { pool, refs, usable, by_group, poison_by_group, cheap, kinds, by_kind, quick_by_kind, tl_slot_ops, families, small_families, families_by_type }
     }
 }
 
@@ -249,10 +261,21 @@ pub fn generate(g: &GenCtx, seed: u64) -> Scenario {
         pct_depth: 0,
     };
     // ---- swarm configuration
-    let crowd = rng.pct(3);
+    let crowd = rng.pct(if a5::verif::site::COUNT > 24 { 6 } else { 3 });
     // crowd: 17-24 simulated threads, most of them alive (parked) at the same time - state that
     // depends on how many threads exist or have existed
-    let n_threads = if crowd { rng.range(17, 24) as usize } else { 1 + weighted(&mut rng, &[15, 30, 25, 15, 8, 7]) };
+    // (crowd sizes cluster around powers of two: pools, arenas and bitmasks of per-thread objects
+    // have capacities like 16, 32, 64, 128)
+    let n_threads = if crowd {
+        match rng.below(20) {
+            0..=11 => rng.range(17, 24) as usize,
+            12..=14 => rng.range(30, 35) as usize,
+            15..=17 => rng.range(62, 67) as usize,
+            _ => rng.range(126, 131) as usize,
+        }
+    } else {
+        1 + weighted(&mut rng, &[15, 30, 25, 15, 8, 7])
+    };
     let long_haul = rng.pct(3);
     let poison_on = rng.pct(65);
     let rekey_on = rng.pct(40);
@@ -365,7 +388,10 @@ pub fn generate(g: &GenCtx, seed: u64) -> Scenario {
             }
             if siblings_on && !g.families.is_empty() && rng.pct(22) {
                 // near-identical calls back to back: A, A', (A'',) A
-                let f = &g.families[rng.below(g.families.len() as u64) as usize];
+                let f = {
+                    let ty = &g.families_by_type[rng.below(g.families_by_type.len() as u64) as usize];
+                    &g.families[*rng.pick(ty)]
+                };
                 if rng.pct(20) {
                     // alternation: A B (C) A B (C) ... - two or three entries competing for one
                     // cache line / "last value" slot
